@@ -33,6 +33,8 @@ def classify(known, c, r):
     q = c["queries"].split("\n", 1)[1]
     marks = re.findall(r"\$\d+|sqlc\.arg\([^)]*\)|@\w+", q)
     if v != 0 and r.get("ok"):
+        if re.search(r"\bzq\.\w+\"?\s*(=|<|>|LIKE|\|\||!|IN\b)", q) or re.search(r"(=|<|>|LIKE|\|\|)\s*zq\.", q):
+            return "unknown_qualifier_next_to_parameter_accepted"
         if len(marks) != len(set(marks)):
             return "repeated_placeholder_first_context_only"
         if re.search(r"(\$\d+|sqlc\.arg\([^)]*\)|@\w+)\s*(=|<|>|LIKE|\|\||!)", q):
